@@ -30,6 +30,15 @@ impl<T> RwLock<T> {
     /// Acquire a shared lock
     #[inline]
     pub fn shared(&self) -> RwLockSharedGuard<'_, T> {
+        #[cfg(oxidd_verif)]
+        {
+            let lock = &self.lock;
+            oxidd_core::verif::acquire(
+                oxidd_core::verif::class::MANAGER_SHARED,
+                self as *const Self as usize,
+                &|| !lock.is_locked_exclusive(),
+            );
+        }
         self.lock.lock_shared();
         RwLockSharedGuard(self, PhantomData)
     }
@@ -37,6 +46,15 @@ impl<T> RwLock<T> {
     /// Acquire an exclusive lock
     #[inline]
     pub fn exclusive(&self) -> RwLockExclusiveGuard<'_, T> {
+        #[cfg(oxidd_verif)]
+        {
+            let lock = &self.lock;
+            oxidd_core::verif::acquire(
+                oxidd_core::verif::class::MANAGER_EXCLUSIVE,
+                self as *const Self as usize,
+                &|| !lock.is_locked(),
+            );
+        }
         self.lock.lock_exclusive();
         RwLockExclusiveGuard(self, PhantomData)
     }
